@@ -801,6 +801,37 @@ Section Generic.
     inversion Ey; subst. exists md, p. auto.
   Qed.
 
+
+  (* "never in the same batch", literally: when the accepted items are pairwise different, EVERY accepted call that
+     contains an item of an emitted batch arrived with the tuple the batch was exported with *)
+  Lemma nodup_snd_fun {A B} (l : list (A * B)) a b x :
+    NoDup (map snd l) -> In (a, x) l -> In (b, x) l -> a = b.
+  Proof.
+    induction l as [|[a0 x0] l IH]; intros Hn Ha Hb; [destruct Ha|]. simpl in Hn. inversion Hn; subst.
+    destruct Ha as [Ha|Ha]; destruct Hb as [Hb|Hb].
+    - congruence.
+    - inversion Ha; subst. exfalso. apply H1. change x with (snd (b, x)). apply in_map. exact Hb.
+    - inversion Hb; subst. exfalso. apply H1. change x with (snd (a, x)). apply in_map. exact Ha.
+    - apply IH; auto.
+  Qed.
+
+  Lemma isolation_unique_g t0 ls s o x md p :
+    let r := bp_run count split c t0 ls in
+    NoDup (map snd (accepted_tagged ls (snd r))) ->
+    In s (fst r) -> In o (s_out s) -> In x (items (snd o)) ->
+    In (md, p) (accepted ls (snd r)) -> In x (items p) -> md_values c md = s_md s.
+  Proof.
+    intros r Hn Hs Ho Hx Ha Hxp. destruct (run_inv t0 ls) as (HG & _ & _ & HP & _). fold r in HG, HP.
+    assert (Hin : In (s_md s, x) (all_tagged (fst r))).
+    { unfold all_tagged. apply in_flat_map. exists s. split; [exact Hs|]. unfold tag. apply in_map.
+      rewrite Forall_forall in HG. destruct (HG s Hs) as [[_ Hf _] _]. unfold taken. rewrite <- Hf.
+      apply in_or_app. left. apply in_or_app. left. unfold outs. apply in_flat_map. exists o. auto. }
+    apply (Permutation_in _ HP) in Hin.
+    assert (Hin2 : In (md_values c md, x) (accepted_tagged ls (snd r))).
+    { unfold accepted_tagged. apply in_flat_map. exists (md, p). split; [exact Ha|]. simpl. apply in_map. exact Hxp. }
+    exact (nodup_snd_fun _ _ _ _ Hn Hin2 Hin).
+  Qed.
+
   Lemma cardinality_bound_g t0 ls : mks c <> [] -> c_limit c <> 0 ->
     length (fst (bp_run count split c t0 ls)) <= c_limit c.
   Proof. intros H1 H2. destruct (run_inv t0 ls) as (_ & _ & _ & _ & HB). auto. Qed.
@@ -1150,6 +1181,25 @@ Section Generic.
                   /\ Forall (fun s => s_done s = false -> (label_time l <= s_deadline s)%Z) (fst x)
                   /\ timely_from (bp_step count split c x l) (label_time l) r
       end.
+
+
+    (* boolean version, for witnesses *)
+    Fixpoint timelyb (x : bp * list N) (last : Z) (ls : list label) : bool :=
+      match ls with
+      | [] => true
+      | l :: r => Z.leb last (label_time l)
+                  && forallb (fun s => s_done s || Z.leb (label_time l) (s_deadline s)) (fst x)
+                  && timelyb (bp_step count split c x l) (label_time l) r
+      end.
+
+    Lemma timelyb_sound : forall ls x last, timelyb x last ls = true -> timely_from x last ls.
+    Proof.
+      induction ls as [|l r IH]; intros x last H; simpl in *; [exact I|].
+      apply andb_true_iff in H. destruct H as [H H3]. apply andb_true_iff in H. destruct H as [H1 H2].
+      split; [apply Z.leb_le; exact H1|]. split; [|apply IH; exact H3].
+      rewrite forallb_forall in H2. apply Forall_forall. intros s Hs Hd. specialize (H2 s Hs).
+      rewrite Hd in H2. simpl in H2. apply Z.leb_le. exact H2.
+    Qed.
 
     Fixpoint end_time (last : Z) (ls : list label) : Z :=
       match ls with [] => last | l :: r => end_time (label_time l) r end.
